@@ -364,4 +364,82 @@ theorem Callback.extend_fail_first (cb : Callback) (w : Nat) (ws : List Nat)
     cb.extend (w :: ws) = (.extCbErr ws.length, { cb with calls := cb.calls + 1 }) := by
   simp [Callback.extend, Callback.write_fail cb w h]
 
+/-! ## `Vec`: seeking back after appends restores; seeking forward is refused -/
+
+/-- a position taken before appending can be sought back to, and that restores the vector -/
+theorem VecB.seek_back_after_writes (v : VecB) (ws : List Nat) :
+    (VecB.mk (v.data ++ ws)).seek v.pos = some v := by
+  cases v with
+  | mk d => simp [VecB.seek, VecB.pos]
+
+theorem Backend.vec_seek_back (v : VecB) (ws : List Nat) :
+    Backend.run (.vec v) (ws.map Op.write ++ [Op.seek v.pos]) =
+      (List.replicate ws.length Out.ok ++ [Out.ok], .ok (.vec v)) := by
+  cases v with
+  | mk d =>
+    rw [Backend.run_append, Backend.run_vec_writes]
+    simp [Backend.run, Backend.step, VecB.pos, VecB.seek]
+
+/-- by design (`Vec::seek` truncates, reads pop): after a successful read the old position is
+    *beyond* the end and `seek` refuses it -/
+theorem VecB.seek_forward_refused (v : VecB) (h : v.data ≠ []) :
+    ((v.read).2).seek v.pos = none := by
+  cases v with
+  | mk d =>
+    rcases List.eq_nil_or_concat d with rfl | ⟨d', w, rfl⟩
+    · exact absurd rfl h
+    · simp [VecB.read, VecB.seek, VecB.pos]
+
+/-! ## callbacks, continued -/
+
+/-- `InfallibleCallbackWriteWords`: every word reaches the callback once, in order, and the
+    write cannot fail -/
+theorem Backend.cbI_writes (ws : List Nat) : ∀ (cb : Callback), cb.failAt = [] →
+    Backend.run (.cbI cb) (ws.map Op.write) =
+      (List.replicate ws.length Out.ok,
+        .ok (.cbI { cb with log := cb.log ++ ws, calls := cb.calls + ws.length })) := by
+  induction ws with
+  | nil => intro cb _; simp [Backend.run]
+  | cons w ws ih =>
+    intro cb h
+    have h0 : cb.failAt.contains cb.calls = false := by simp [h]
+    have h' : ({ cb with log := cb.log ++ [w], calls := cb.calls + 1 } : Callback).failAt = [] := h
+    simp [Backend.run, Backend.step, Callback.write_ok cb w h0, ih _ h', List.replicate_succ,
+      Nat.add_assoc, Nat.add_comm 1 ws.length]
+
+theorem Backend.cbI_extend (cb : Callback) (h : cb.failAt = []) (ws : List Nat) :
+    Backend.step (.cbI cb) (.extend ws) =
+      .ok (.ok, .cbI { cb with log := cb.log ++ ws, calls := cb.calls + ws.length }) := by
+  have := Callback.extend_ok ws cb (by intro i _; simp [h])
+  simp [Backend.step, this]
+
+/-- `extend_from_iter` stops at the **k-th** call when that is the first one to fail: the
+    words before it are delivered, the failing word is consumed and lost, the rest stays in
+    the iterator -/
+theorem Callback.extend_fail_kth (pre : List Nat) : ∀ (cb : Callback) (w : Nat) (post : List Nat),
+    (∀ i, i < pre.length → cb.failAt.contains (cb.calls + i) = false) →
+    cb.failAt.contains (cb.calls + pre.length) = true →
+    cb.extend (pre ++ w :: post) =
+      (.extCbErr post.length,
+        { cb with log := cb.log ++ pre, calls := cb.calls + pre.length + 1 }) := by
+  induction pre with
+  | nil =>
+    intro cb w post _ hk
+    have hk' : cb.failAt.contains cb.calls = true := by simpa using hk
+    simp [Callback.extend, Callback.write_fail cb w hk']
+  | cons a pre ih =>
+    intro cb w post hpre hk
+    have h0 : cb.failAt.contains cb.calls = false := by simpa using hpre 0 (by simp)
+    have hpre' : ∀ i, i < pre.length →
+        ({ cb with log := cb.log ++ [a], calls := cb.calls + 1 } : Callback).failAt.contains
+          (({ cb with log := cb.log ++ [a], calls := cb.calls + 1 } : Callback).calls + i) = false := by
+      intro i hi
+      have := hpre (i + 1) (by simp; omega)
+      simpa [Nat.add_assoc, Nat.add_comm 1 i] using this
+    have hk' : ({ cb with log := cb.log ++ [a], calls := cb.calls + 1 } : Callback).failAt.contains
+          (({ cb with log := cb.log ++ [a], calls := cb.calls + 1 } : Callback).calls + pre.length) = true := by
+      simpa [Nat.add_assoc, Nat.add_comm 1 pre.length] using hk
+    have := ih _ w post hpre' hk'
+    simp [Callback.extend, Callback.write_ok cb a h0, this, Nat.add_assoc, Nat.add_comm 1 pre.length]
+
 end CV.Backend
